@@ -511,3 +511,133 @@ def tag_casts(prog, chk, rid, fams=("Variant", "Xml::Variant"), floor=20):
                 else:
                     chk.bad(rid, f, "clear-misses-tag:%d" % tag, "%s:%s" % (f.file, f.line),
                             "clear() has no case for tag %d that runs ~%s: payloads of that alternative leak or are destroyed as another type" % (tag, ty))
+
+
+# ----------------------------------------------------------------------------- own payload read after release (C07.h / C09.j)
+
+def _releasing_members(prog, fam):
+    """signatures of members of the family that give up this handle's reference (contain Atomic::decrement on the handle's counter)"""
+    d = FAMILIES[fam]
+    out = set()
+    fs = family_functions(prog, fam)
+    for f in fs:
+        if any(same_obj(x, "this->" + d["ptr"]) for _c, x in atomic_calls(f, "decrement")):
+            out.add(f.sig)
+    # one level of delegation (a member that calls a releasing member on this)
+    for f in fs:
+        for c in q.calls(f):
+            n = f.nodes[c]
+            if n.get("csig") in out and n["k"] == "CXXMemberCallExpr":
+                o = q.call_object(f, c)
+                if o is None or f.nodes[o]["k"] == "CXXThisExpr":
+                    pass
+    return out
+
+
+def _is_this_obj(f, c):
+    o = q.call_object(f, c)
+    if o is None:
+        return f.nodes[c]["k"] == "CXXMemberCallExpr"
+    x = o
+    while f.nodes[x]["k"] in ("CStyleCastExpr", "ParenExpr", "ImplicitCastExpr", "CXXStaticCastExpr", "CXXConstCastExpr") and f.nodes[x]["c"]:
+        x = f.strip(f.nodes[x]["c"][0])
+    return f.nodes[x]["k"] == "CXXThisExpr"
+
+
+def own_payload_after_release(prog, chk, rid, fams=("Variant", "Xml::Variant"), floor=10):
+    chk.rule(rid, "ORD: after a member gave up its reference to the payload (clear() / decrement) and before `data` is re-seated, it does not "
+                  "read the old payload (directly or through a const accessor of *this), and it does not hand a reference into its own payload "
+                  "to a member that releases before reading that parameter", floor=floor)
+    for fam in fams:
+        d = FAMILIES[fam]
+        fs = family_functions(prog, fam)
+        by_sig = {f.sig: f for f in fs}
+        rel = _releasing_members(prog, fam)
+        ptr = "this->" + d["ptr"]
+
+        def releases(f):
+            ev = [c for c, x in atomic_calls(f, "decrement") if same_obj(x, ptr)]
+            for c in q.calls(f):
+                n = f.nodes[c]
+                if n.get("csig") in rel and n["k"] == "CXXMemberCallExpr" and _is_this_obj(f, c):
+                    ev.append(c)
+            return ev
+
+        def payload_reads(f):
+            """nodes that read this handle's payload: `(T*)(data + 1)` expressions and const-accessor calls on *this"""
+            out = []
+            for i, n in enumerate(f.nodes):
+                if n["k"] == "BinaryOperator" and n.get("op") == "+" and len(n["c"]) == 2 and q.no_casts(f.r(n["c"][0])) == ptr:
+                    out.append(i)
+                elif n["k"] == "CXXMemberCallExpr" and _is_this_obj(f, i):
+                    g = by_sig.get(n.get("csig"))
+                    if g is not None and g.d.get("const") and g is not f and any(
+                            m["k"] == "BinaryOperator" and m.get("op") == "+" and q.no_casts(g.r(m["c"][0])) == ptr for m in g.nodes if len(m.get("c", [])) == 2):
+                        out.append(i)
+            return out
+
+        # hazard parameters: reference/pointer parameter read after a release
+        hazard = {}
+        for f in fs:
+            ev = releases(f)
+            if not ev:
+                continue
+            for k, p in enumerate(f.params):
+                if not (p["t"].endswith("&") or p["t"].endswith("*")):
+                    continue
+                reads = [i for i, n in enumerate(f.nodes) if n["k"] == "DeclRefExpr" and n["ref"]["id"] == p["id"]]
+                if any(q.reaches(f, e, r) for e in ev for r in reads):
+                    hazard.setdefault(f.sig, set()).add(k)
+        for f in fs:
+            if f.d.get("const") or f.kind == "dtor":
+                continue
+            ev = releases(f)
+            reads = payload_reads(f)
+            seats = set(w.pos for w in q.field_writes(f, d["ptr"], "this"))
+            where = "%s:%s" % (f.file, f.line)
+            bad = None
+            if f.sig not in rel:     # the releasing member itself destroys the payload under its own decrement test (C09.b)
+                for e in ev:
+                    for r in reads:
+                        if r in f.desc(e):
+                            continue
+                        pe, pr = f.node_pos(e), f.node_pos(r)
+                        if pe is None or pr is None:
+                            continue
+                        if f.find_path(pe, {pr}, avoid=seats - {pr}) is not None:
+                            bad = (e, r)
+                            break
+                    if bad:
+                        break
+            if bad:
+                chk.bad(rid, f, "own-payload-read-after-release", f.where(bad[1]),
+                        "`%s` reads this handle's payload after `%s` gave the reference up and before `%s` is re-seated: the value read is the "
+                        "null payload (the previous value is lost) or, when another thread drops the last other handle in between, freed memory"
+                        % (f.r(bad[1])[:60], f.r(bad[0])[:40], d["ptr"]), evals=max(1, len(ev) * max(1, len(reads))))
+            elif ev:
+                chk.ok(rid, f, "payload not read between release and re-seat", where, "%d release events x %d payload reads" % (len(ev), len(reads)),
+                       evals=max(1, len(ev) * max(1, len(reads))))
+            # own payload handed to a member that releases first
+            for c in q.calls(f):
+                n = f.nodes[c]
+                hz = hazard.get(n.get("csig"))
+                if not hz or n["k"] not in ("CXXMemberCallExpr", "CXXOperatorCallExpr"):
+                    continue
+                args = q.call_args(f, c)
+                if n["k"] == "CXXOperatorCallExpr":
+                    # args[0] is the object
+                    obj, args = args[0], args[1:]
+                    x = f.strip(obj)
+                    while f.nodes[x]["k"] in ("UnaryOperator", "ParenExpr") and f.nodes[x]["c"]:
+                        x = f.strip(f.nodes[x]["c"][0])
+                    if f.nodes[x]["k"] != "CXXThisExpr":
+                        continue
+                elif not _is_this_obj(f, c):
+                    continue
+                for k in hz:
+                    if k < len(args) and any(r in f.desc(args[k]) or r == f.strip(args[k]) for r in reads):
+                        chk.bad(rid, f, "own-payload-passed-to-releasing-member:" + n["callee"].split("::")[-1], f.where(c),
+                                "`%s` refers into this handle's own payload and is handed to %s, which gives the reference up before it reads that "
+                                "parameter: the copy is taken from a payload this handle no longer keeps alive" % (f.r(args[k])[:60], n["callee"]))
+                    elif k < len(args):
+                        chk.ok(rid, f, "argument of %s is not this handle's payload" % n["callee"].split("::")[-1], f.where(c), f.r(args[k])[:50], nontrivial=False)
